@@ -9,13 +9,13 @@ use serde_json::json;
 pub static META: Meta = Meta {
     id: "C33",
     level: "exploration",
-    rule: "random schemas (1-3 columns over int/float/string/bool/vector) x histories of 8-20 writes through every write path: +r(..), +r[..] (batches with 0 or 1 non-conforming tuple at a random position), update statements whose inserted literal conforms or not, request-local session facts, WebSocket-style session facts, and schemas declared after data exists; after every step every tuple visible in the relation (dump, and the session's query answer) must conform, a batch with a non-conforming tuple must leave the relation unchanged, and a conforming batch must be stored; distinct = schema+history; non-trivial = at least one accepted and one rejected write",
-    assumptions: &["conformance: int<-integer, float<-float|integer, string<-string, bool<-bool, vector<-vector (docs/spec/types.md and the validator's own acceptance of 1 for float)"],
+    rule: "random schemas (1-3 columns over int/float/string/bool/vector/vector(2)) x histories of 8-20 writes through every write path: +r(..), +r[..] (batches with 0 or 1 non-conforming tuple at a random position), update statements whose inserted literal conforms or not, request-local session facts, WebSocket-style session facts, and schemas declared after data exists; after every step every tuple visible in the relation (dump, and the session's query answer) must conform, a batch with a non-conforming tuple must leave the relation unchanged, and a conforming batch must be stored; distinct = schema+history; non-trivial = at least one accepted and one rejected write",
+    assumptions: &["conformance: int<-integer, float<-float|integer, string<-string, bool<-bool, vector<-vector, vector(2)<-vector of dimension 2 (docs/spec/types.md and the validator's own acceptance of 1 for float)"],
     floor: 30,
     watchdog: (0, 0),
 };
 
-const TYPES: [&str; 5] = ["int", "float", "string", "bool", "vector"];
+const TYPES: [&str; 6] = ["int", "float", "string", "bool", "vector", "vector(2)"];
 
 #[derive(Clone, Debug, PartialEq)]
 enum Lit {
@@ -36,10 +36,16 @@ impl Lit {
         }
     }
     fn conforms(&self, ty: &str) -> bool {
+        if let (Lit::V(v), "vector(2)") = (self, ty) {
+            return v.len() == 2;
+        }
         matches!((self, ty), (Lit::I(_), "int") | (Lit::I(_), "float") | (Lit::F(_), "float") | (Lit::S(_), "string") | (Lit::B(_), "bool") | (Lit::V(_), "vector"))
     }
 }
 fn value_conforms(v: &Value, ty: &str) -> bool {
+    if let (Value::Vector(x), "vector(2)") = (v, ty) {
+        return x.len() == 2;
+    }
     matches!((v, ty), (Value::Int32(_) | Value::Int64(_), "int") | (Value::Int32(_) | Value::Int64(_) | Value::Float64(_), "float") | (Value::String(_), "string") | (Value::Bool(_), "bool") | (Value::Vector(_), "vector"))
 }
 fn gen_lit(r: &mut crate::rng::Rng, ty: &str) -> Lit {
@@ -54,10 +60,16 @@ fn gen_lit(r: &mut crate::rng::Rng, ty: &str) -> Lit {
         }
         "string" => Lit::S(r.pick(&["a", "b", "hello world", "x1"]).to_string()),
         "bool" => Lit::B(r.chance(1, 2)),
+        "vector" => Lit::V((0..(1 + r.below(3))).map(|_| r.range(0, 4) as f32 + 0.25).collect()),
         _ => Lit::V((0..2).map(|_| r.range(0, 4) as f32 + 0.25).collect()),
     }
 }
 fn gen_bad(r: &mut crate::rng::Rng, ty: &str) -> Lit {
+    if ty == "vector(2)" && r.chance(2, 3) {
+        // right kind, wrong dimension
+        let n = *r.pick(&[1usize, 3, 4]);
+        return Lit::V((0..n).map(|_| r.range(0, 4) as f32 + 0.25).collect());
+    }
     loop {
         let other = *r.pick(&TYPES);
         let l = gen_lit(r, other);
